@@ -478,6 +478,12 @@ def _worker(args):
     pcls, K, d, two_step = args
     try:
         return ("ok",) + _one_config((_MODEL, pcls, K, d, two_step))
+    except A.PathCrash as ex:
+        # the constructor (or a helper it calls) raises on an abstract run
+        cfg = "%s K=%s d=%s" % (pcls, K, d)
+        recs = [dict(rule=r, ok=False, cls=pcls, cfg=cfg, construct="abstract run of __init__ / make_children", method="__init__",
+                     detail="raises on this abstract run: %s" % ex) for r in ("R02-TOTAL", "R03-BASE")]
+        return ("ok", recs, [], 0)
     except A.Unsupported as ex:
         # make_children uses a construct the abstract interpreter has no sound model for: none of the step obligations of
         # this class can be discharged (a violation naming the construct - not an analysis failure)
